@@ -122,7 +122,8 @@ def annular_bounds(intensity, r, inner, outer, eps):
 
     lower counts pixels that are inside by more than eps, upper those inside with margin eps.
     intensity: (..., P) flattened pixels, r: (P,)."""
-    lo_mask = (r >= inner + eps) & (r < outer - eps)
+    # the zero-angle pixel and a limit of exactly 0 are exact in every arithmetic: 0 >= 0 needs no margin
+    lo_mask = ((r >= inner + eps) | ((r == 0) & (inner == 0))) & (r < outer - eps)
     hi_mask = (r >= inner - eps) & (r < outer + eps)
     return intensity[..., lo_mask].sum(-1), intensity[..., hi_mask].sum(-1), int(hi_mask.sum() - lo_mask.sum())
 
@@ -133,6 +134,8 @@ def radial_bin_bounds(intensity, r, offset, step, nbins, eps):
     Returns arrays of shape (..., nbins)."""
     bm = np.floor((r - eps - offset) / step).astype(np.int64)
     bp = np.floor((r + eps - offset) / step).astype(np.int64)
+    if offset == 0:
+        bm = np.where(r == 0, 0, bm)       # exact: the zero-angle pixel belongs to the bin starting at exactly 0
     lead = intensity.shape[:-1]
     lo = np.zeros(lead + (nbins,))
     hi = np.zeros(lead + (nbins,))
